@@ -8,7 +8,8 @@ void longjmp(jmp_buf env, int val) {
 	(void)env; (void)val;
 	__CPROVER_assert(g_may_throw, "throw only where the contract under proof admits an error exit");
 	__CPROVER_assert(g_ctx.code == RLC_ERR, "error exit: the error code is set");
-	__CPROVER_assert(g_d2_len != (size_t)VC_FP12W_NEED, "error exit: only when the buffer does not have the demanded length");
+	__CPROVER_assert(g_d2_pack ? (g_d2_cyc_calls == 1 && (g_d2_cyc == 0 || g_d2_cyc == 1)) : g_d2_cyc_calls == 0, "error exit: after the unitarity test (asked iff compression is requested)");
+	__CPROVER_assert(g_d2_len != (size_t)VC_FP12W_NEED, "error exit: only when the buffer does not have the length fp12_size_bin advertises");
 	__CPROVER_assert(g_d2_wcalls == 0 && g_d2_rcalls == 0 && g_d2_pck_calls == 0, "error exit: before anything is encoded");
 	g_thrown = 1;
 	__CPROVER_assume(0);
